@@ -73,7 +73,8 @@ def gen_training_program(rng, r, tier, max_total=40, eqs=None, allow_segments=Tr
         n = mb * rng.randint(1, 3) + rng.choice([0, 0, 1, 2])
         prog["param_data"] = {"kind": "param", "key": rng.randrange(2**31), "n": n, "b": mb,
                               "ranges": {"b": [0.5, 1.5], "a": [0.6, 1.4]} if rng.random() < 0.4 else {"b": [0.5, 1.5]},
-                              "user": {}, "method": "uniform", "keys_as_dict": True}
+                              "user": {}, "method": "uniform", "keys_as_dict": True,
+                              "ranges_order": ["b", "a"]}  # non-alphabetical insertion order of the user's dict
         # a parameter batch is vmapped together with every term's own batch: border
         # batches have another row count -> outside the supported space
         prog["terms"]["bc"] = None
